@@ -2027,7 +2027,13 @@ func (self *Node) parseRaw(full bool) {
 		parser.noLazy = true
 		parser.loadOnce = true
 		n, e = parser.Parse()
+		if e != 0 {
+			// publish the error node through assign() too: the `*self = ...` below would write the
+			// type word non-atomically and drop self.m, so that the deferred unlock() releases nothing
+			n = *newSyntaxError(parser.syntaxError(e))
+		}
 		self.assign(n)
+		return
 	} else {
 		*self, e = parser.Parse()
 	}
